@@ -89,6 +89,11 @@ def check(rep, an, tier):
                           where=res.fn.loc(), construct="unit/frame of system_capture", entry="ReceptorEstimator.system_capture", config=cfgs,
                           msg=f"[{ustr(v.unit)}] {v.frame}")
                 R.rule_type_errors(rep, res, "SHAPE", "R-SHAPE", "ReceptorEstimator.system_capture")
+                # the prediction uses the LIVE capture matrix: no cached copy is written by (or read instead of) the query
+                R.rule_effect_free(rep, res, "ReceptorEstimator.system_capture")
+                rep.check("R-FLOW", "system_capture reads the registered capture matrix", "self.A" in v.data, where=res.fn.loc(),
+                          construct="self.A → system_capture", entry="ReceptorEstimator.system_capture", config=cfgs,
+                          msg=f"the prediction depends on {sorted(v.data)}, not on the registered capture matrix self.A")
                 if xr == "vector" and Kk == "mat":
                     continue         # documented for batches (B.T of a vector is the vector itself)
                 res = an.run(f"{EST}.system_relative_capture", kws=dict(X=X), self_fields=fields, config=cfgs)
@@ -102,6 +107,7 @@ def check(rep, an, tier):
                           msg=f"[{ustr(v.unit)}] {v.frame}")
                 R.rule_type_errors(rep, res, "SHAPE", "R-SHAPE", entry)
                 R.rule_type_errors(rep, res, "QTY", "R-QTY", entry)
+                R.rule_effect_free(rep, res, entry)
                 R.rule_purity(rep, res, entry)
     # sibling: apply_linear_transform
     for Kk in ("vec", "mat"):
